@@ -217,6 +217,22 @@ def cases(tier, rng=None):
             nm2 = '%s->%s %s->%s' % (''.join(map(str, ob)), ''.join(map(str, oa)), '+'.join(cb) or 'none', '+'.join(ca))
             out.append(dict(label='%s scatter %s' % (fn, nm2), struct=None, key=key,
                             contracts={key: scatter_contract(len(oa), list(ob), list(oa), cb, ca, intact)}))
+    # getAxes on its own: the communicator of the scattered group that the gathered group lacks, and the layout axis of the
+    # gathered layout that holds the dimension distributed over it
+    ga = [((0, 2, 1), (0, 1, 2), ['c0'], ['c0', 'c1']), ((1, 0, 2), (0, 1, 2), ['c1'], ['c0', 'c1']), ((2, 1, 0), (1, 0, 2), [], ['c0']),
+          ((0, 3, 1, 2), (0, 2, 1, 3), ['c0'], ['c0', 'c1']), ((2, 0, 1), (0, 1, 2), ['c1'], ['c0', 'c1'])]
+    for (og, os_, cg, cs) in (ga[:3] if tier == 'quick' else ga):
+        key = L + '::LayoutSwapper.getAxes'
+        ig, is_ = axes(og, os_, cg, cs)
+        sw = {'__class__': L + '::LayoutSwapper', '_managers': ('list', [handler_spec(cg), handler_spec(cs)]),
+              '_handlers': {'__dict__': {'gathered': ('const', 0), 'scattered': ('const', 1)}}}
+        C = {key: dict(params={'self': sw, 'layout_gathered': layout_spec(len(og), list(og), 'gathered'),
+                               'layout_scattered': layout_spec(len(os_), list(os_), 'scattered')},
+                       requires=[], modifies=[], ensures=['result[0] == %d and result[1] == %d' % (ig, is_),
+                                                          # the dimension on the two axes is the same one
+                                                          'layout_gathered._dims_order[result[0]] == layout_scattered._dims_order[result[1]]'])}
+        out.append(dict(label='getAxes %s/%s %s/%s' % (''.join(map(str, og)), ''.join(map(str, os_)), '+'.join(cg) or 'none', '+'.join(cs)),
+                        struct=None, key=key, contracts=C))
     for (oa, ob, ca) in sames:
         for intact in (False, True):
             fn = '_transpose_source_intact' if intact else '_transpose'
